@@ -468,3 +468,89 @@ def gen_burst(rnd, n=700):
         sources.append(arr)
     return {"sources": sources, "jobs": [[100, 1, 0]], "bev": {}, "raise": {}, "n_idle": 0, "mc": rnd.choice([5, 50]),
             "end": 600, "job_tz": {}}
+
+
+# ------------------------------------------------------------------------------------------------
+# the real clock, in a process whose local time zone is not UTC (run as a sub-process with TZ set)
+def real_clock_main():
+    """half a second of the real RealtimeDispatcher on the real clock: what is due runs, what is hours away does not,
+    whatever the local time zone of the process.  Prints one JSON object."""
+    import json
+    import sys
+    import time
+    time.tzset()
+    from harness import common
+    common.ensure_repo_on_path()
+
+    async def go():
+        import basana as bs
+        from basana.core import event as core_event
+        d = bs.realtime_dispatcher()
+        d.idle_sleep = 0.01
+        ref = datetime.datetime.now(datetime.timezone.utc)
+        t0 = time.time()
+        ran = {}
+
+        def job(name):
+            async def run():
+                ran["job_" + name] = round(time.time() - t0, 3)
+            return run
+        d.schedule(ref - datetime.timedelta(seconds=1), job("past"))
+        d.schedule(ref + datetime.timedelta(seconds=0.15), job("soon"))
+        d.schedule(ref + datetime.timedelta(hours=2), job("far"))
+        d.schedule(ref + datetime.timedelta(hours=20), job("tomorrow"))
+
+        class Ev(core_event.Event):
+            def __init__(self, when, name):
+                super().__init__(when)
+                self.name = name
+
+        src = core_event.FifoQueueEventSource(events=[Ev(ref - datetime.timedelta(seconds=2), "past"),
+                                                      Ev(ref + datetime.timedelta(hours=1), "future")])
+
+        async def handler(ev):
+            ran["event_" + ev.name] = round(time.time() - t0, 3)
+        d.subscribe(src, handler)
+
+        async def stopper():
+            await asyncio.sleep(0.6)
+            d.stop()
+        st = asyncio.ensure_future(stopper())
+        lg = logging.getLogger("basana")
+        lg.setLevel(logging.CRITICAL + 1)
+        await d.run(stop_signals=[])
+        st.cancel()
+        return ran
+    out = asyncio.run(go())
+    out["tz"] = time.tzname[0]
+    sys.stdout.write(json.dumps(out) + "\n")
+
+
+def real_clock_probe(tz):
+    import json
+    import os
+    import subprocess
+    import sys
+    from harness import common
+    env = dict(os.environ)
+    env["TZ"] = tz
+    pr = subprocess.run([sys.executable, "-c", "from harness import realtime_driver as rd; rd.real_clock_main()"],
+                        capture_output=True, text=True, env=env, cwd=common.VERIF, timeout=120)
+    if pr.returncode != 0 or not pr.stdout.strip():
+        return None, (pr.stderr or "")[-1500:]
+    return json.loads(pr.stdout.strip().splitlines()[-1]), ""
+
+
+def monitor_real_clock(tz, ran):
+    out = []
+    for k in ("job_past", "job_soon", "event_past"):
+        if k not in ran:
+            out.append(("realtime:due-item-not-dispatched",
+                        f"TZ={tz}: {k} was due within 0.15 s of the start and had not run after 0.6 s of real time"))
+    for k in ("job_far", "job_tomorrow", "event_future"):
+        if k in ran:
+            out.append(("realtime:dispatched-early",
+                        f"TZ={tz}: {k} is due hours from now and ran {ran[k]} s after the start"))
+    if "job_soon" in ran and ran["job_soon"] < 0.1:
+        out.append(("realtime:dispatched-early", f"TZ={tz}: the job due at +0.15 s ran at +{ran['job_soon']} s"))
+    return out
